@@ -63,6 +63,30 @@ fn main() {
         world::cleanup_scratch();
         std::process::exit(0);
     }
+    if args[1] == "c07-run" {
+        // c07-run <substring of the configuration name> <max steps> [fair]
+        net::init_sleep_sites();
+        let max: usize = args.get(3).and_then(|a| a.parse().ok()).unwrap_or(2000);
+        let fair = args.get(4).map(|a| a == "fair").unwrap_or(false);
+        for c in props::c07::configs(false) {
+            if !c.name().contains(&args[2]) {
+                continue;
+            }
+            match props::c07::build(&c) {
+                Ok(mut w) => {
+                    let r = if fair { w.run_fair(max).map(|r| format!("{:?}", r)) } else { w.run_to_quiescence(max).map(|n| format!("quiet after {}", n)) };
+                    println!("{} [{}]: {:?}", c.name(), if fair { "fair schedule" } else { "default schedule" }, r);
+                    for i in 0..c.nodes {
+                        println!("  n{} role={} members={:?}", i + 1, w.role(i), w.members(i));
+                    }
+                    w.shutdown();
+                }
+                Err(e) => println!("build failed: {}", e),
+            }
+        }
+        world::cleanup_scratch();
+        std::process::exit(0);
+    }
     if args[1] == "ws-demo" {
         use world::*;
         let node = Node::new_single("ws-demo");
